@@ -16,7 +16,9 @@ type genMode struct {
 var strAlphabet = []string{"a", "b", "c"}
 // the last two are more than 2^63 apart (an order computed by subtraction wraps around)
 var numAlphabet = []interface{}{int64(0), int64(1), float64(1), int64(2), int64(-1), 1.5, int64(1) << 53,
-	int64(6000000000000000000), int64(-6000000000000000000)}
+	int64(6000000000000000000), int64(-6000000000000000000),
+	// 2^53 + 1: differs from 2^53 only below the precision of float64
+	int64(1)<<53 + 1}
 
 func genScalar(r *rand.Rand, t schema.Scalar) interface{} {
 	switch t {
@@ -181,6 +183,10 @@ func genMap(r *rand.Rand, sc *schema.Schema, t *schema.Map, m genMode, depth int
 		}
 		for i := 0; i < n; i++ {
 			k := []string{"ka", "kb", "kc"}[r.Intn(3)]
+			if len(t.Fields) > 0 && r.Intn(2) == 0 {
+				// an undeclared entry that sorts after the declared fields
+				k = []string{"zy", "zz"}[r.Intn(2)]
+			}
 			out[k] = genValue(r, sc, t.ElementType, m, depth-1)
 		}
 	}
